@@ -291,18 +291,24 @@ func (t *transport) SendInstallSnapshot(
 func (t *transport) RegisterAppendEntriesHandler(
 	handler func(*AppendEntriesRequest, *AppendEntriesResponse) error,
 ) {
+	t.mu.Lock()
+	defer t.mu.Unlock()
 	t.appendEntriesHandler = handler
 }
 
 func (t *transport) RegisterRequestVoteHandler(
 	handler func(*RequestVoteRequest, *RequestVoteResponse) error,
 ) {
+	t.mu.Lock()
+	defer t.mu.Unlock()
 	t.requestVoteHandler = handler
 }
 
 func (t *transport) RegsiterInstallSnapshotHandler(
 	handler func(*InstallSnapshotRequest, *InstallSnapshotResponse) error,
 ) {
+	t.mu.Lock()
+	defer t.mu.Unlock()
 	t.installSnapshotHandler = handler
 }
 
@@ -332,7 +338,10 @@ func (t *transport) AppendEntries(
 ) (*pb.AppendEntriesResponse, error) {
 	appendEntriesRequest := makeAppendEntriesRequest(request)
 	appendEntriesResponse := &AppendEntriesResponse{}
-	if err := t.appendEntriesHandler(&appendEntriesRequest, appendEntriesResponse); err != nil {
+	t.mu.RLock()
+	handler := t.appendEntriesHandler
+	t.mu.RUnlock()
+	if err := handler(&appendEntriesRequest, appendEntriesResponse); err != nil {
 		return nil, status.Error(codes.Unavailable, err.Error())
 	}
 	return makeProtoAppendEntriesResponse(*appendEntriesResponse), nil
@@ -344,7 +353,10 @@ func (t *transport) RequestVote(
 ) (*pb.RequestVoteResponse, error) {
 	requestVoteRequest := makeRequestVoteRequest(request)
 	requestVoteResponse := &RequestVoteResponse{}
-	if err := t.requestVoteHandler(&requestVoteRequest, requestVoteResponse); err != nil {
+	t.mu.RLock()
+	handler := t.requestVoteHandler
+	t.mu.RUnlock()
+	if err := handler(&requestVoteRequest, requestVoteResponse); err != nil {
 		return nil, status.Error(codes.Unavailable, err.Error())
 	}
 	return makeProtoRequestVoteResponse(*requestVoteResponse), nil
@@ -356,7 +368,10 @@ func (t *transport) InstallSnapshot(
 ) (*pb.InstallSnapshotResponse, error) {
 	installSnapshotRequest := makeInstallSnapshotRequest(request)
 	installSnapshotResponse := &InstallSnapshotResponse{}
-	if err := t.installSnapshotHandler(&installSnapshotRequest, installSnapshotResponse); err != nil {
+	t.mu.RLock()
+	handler := t.installSnapshotHandler
+	t.mu.RUnlock()
+	if err := handler(&installSnapshotRequest, installSnapshotResponse); err != nil {
 		return nil, status.Error(codes.Unavailable, err.Error())
 	}
 	return makeProtoInstallSnapshotResponse(*installSnapshotResponse), nil
